@@ -411,6 +411,27 @@ pub fn run(ctx: &mut Ctx) {
             }
         }
     }
+    // a notification that is no edit, between the edit and the request: the tokens are those of the text
+    for (i, t1) in texts.iter().enumerate() {
+        for (nname, msg) in crate::lspx::neutral_notifications(URI, URI_B) {
+            let fresh = tokens_for(t1);
+            let mut s = MemSrv::new(None);
+            s.step(&did_open(URI, 1, t1));
+            s.step(&msg);
+            let got = request_tokens(&mut s, URI, 43);
+            let _ = Box::new(s).finish();
+            hist_cases += 1;
+            ctx.transitions += 3;
+            ctx.distinct(&format!("hist-notif|{}|{}", i, nname));
+            if got != fresh {
+                ctx.fail(
+                    &format!("tokens-depend-on-history/after-{}", nname.split('(').next().unwrap_or(nname)),
+                    &format!("tokens of text{} after the notification {} differ from a fresh server's tokens for the same text", i, nname),
+                    json!({"mode":"history-notification","t1":t1,"notification":msg}),
+                );
+            }
+        }
+    }
     ctx.evaluations += hist_cases;
     ctx.extra.insert("history_cases".into(), json!(hist_cases));
     // comment ranges come from the lexer's idea of where a comment ends: exhaustive differential sweep
@@ -464,6 +485,19 @@ pub fn replay(case: &Value) -> Result<String, String> {
             match judge(v, &r, &legend) {
                 None => Ok("tokens match the lexeme table".into()),
                 Some((s, d)) => Err(format!("{} :: {}", key_for(v, &s), d)),
+            }
+        }
+        Some("history-notification") => {
+            let t1 = case["t1"].as_str().ok_or("t1")?;
+            let fresh = tokens_for(t1);
+            let mut s = MemSrv::new(None);
+            s.step(&did_open(URI, 1, t1));
+            s.step(&case["notification"]);
+            let got = request_tokens(&mut s, URI, 43);
+            if got == fresh {
+                Ok("tokens depend on the current text only".into())
+            } else {
+                Err("tokens after the notification differ from a fresh server's".into())
             }
         }
         Some("lexical-structure") => crate::lexseg::replay(case["text"].as_str().ok_or("text")?),
